@@ -32,7 +32,7 @@ var witnessName = map[maskSet]string{
 	mWildcardUnbacked: "donor-has-wildcard-gateway-mapping",
 	mStaleDestName:    "donor-has-destination-kind-service-name-without-a-service-defaults-destination",
 	mStaleHash:        "donor-has-config-entry-whose-stored-hash-is-not-the-hash-of-its-content",
-	mUnheldUUID:       "donor-has-peering-secret-uuid-no-secrets-row-holds",
+	mUnheldUUID:       "donor-lists-secret-uuid-that-no-secrets-row-of-a-non-dialing-peering-holds",
 	mNodeSpelling:     "donor-has-service-row-whose-node-name-spelling-differs-from-its-node-row",
 	mNameSpelling:     "history-registered-one-service-name-in-two-letter-case-spellings",
 }
@@ -65,11 +65,31 @@ func (t *nameTracker) note(st *state.Store) {
 		}
 	}
 	st.WalkAllTables(func(table string, item interface{}) bool {
-		if sn, ok := item.(*structs.ServiceNode); ok {
-			add(sn.ServiceName)
-			if sn.ServiceKind == structs.ServiceKindConnectProxy {
-				add(sn.ServiceProxy.DestinationServiceName)
+		switch v := item.(type) {
+		case *structs.ServiceNode:
+			add(v.ServiceName)
+			if v.ServiceKind == structs.ServiceKindConnectProxy {
+				add(v.ServiceProxy.DestinationServiceName)
+				for _, u := range v.ServiceProxy.Upstreams {
+					add(u.DestinationName)
+				}
 			}
+		// the names a gateway's config entry links: its gateway-services rows are written with the
+		// spelling of whichever path (config entry or registration) wrote them last
+		case *structs.TerminatingGatewayConfigEntry:
+			add(v.Name)
+			for _, l := range v.Services {
+				add(l.Name)
+			}
+		case *structs.IngressGatewayConfigEntry:
+			add(v.Name)
+			for _, l := range v.Listeners {
+				for _, sv := range l.Services {
+					add(sv.Name)
+				}
+			}
+		case *structs.ServiceConfigEntry:
+			add(v.Name)
 		}
 		return true
 	})
@@ -198,6 +218,18 @@ type witness struct {
 
 func (w *witness) has(m maskSet) bool { return w != nil && w.masks&m != 0 }
 
+// withVariants: the witness for a comparison made after a suffix, in which both stores were given
+// the later spellings too.
+func (w *witness) withVariants(v map[string]bool) *witness {
+	if w == nil || len(v) == 0 {
+		return w
+	}
+	c := *w
+	c.variants = v
+	c.masks |= mNameSpelling
+	return &c
+}
+
 func (w *witness) without(m maskSet) *witness {
 	c := *w
 	c.masks &^= m
@@ -234,6 +266,7 @@ func computeWitness(st *state.Store, hf histFacts) *witness {
 	var uuids []string
 	idx := map[string]uint64{}
 	peerings := map[string]bool{}
+	dialing := map[string]bool{}
 	var secrets []*pbpeering.PeeringSecrets
 	type usageRow struct {
 		idx uint64
@@ -289,6 +322,9 @@ func computeWitness(st *state.Store, hf histFacts) *witness {
 			}
 		case *pbpeering.Peering:
 			peerings[v.ID] = true
+			if v.ShouldDial() {
+				dialing[v.ID] = true
+			}
 		case *pbpeering.PeeringSecrets:
 			secrets = append(secrets, v)
 		default:
@@ -334,8 +370,12 @@ func computeWitness(st *state.Store, hf histFacts) *witness {
 			w.leftover[ud[0]], w.leftover[ud[1]] = true, true
 		}
 	}
+	// the ids a restore records: those of the secrets rows of peerings that do not dial
 	held := map[string]bool{}
 	for _, s := range secrets {
+		if dialing[s.PeerID] {
+			continue
+		}
 		for _, id := range []string{s.GetEstablishment().GetSecretID(), s.GetStream().GetPendingSecretID(), s.GetStream().GetActiveSecretID()} {
 			held[id] = true
 		}
